@@ -154,11 +154,12 @@ func (s *Server) Run(addr string, opt ...Option) error {
 	}
 	s.mu.Lock()
 	s.listener, err = net.Listen("tcp", addr)
-	s.listenerReady = true
-	s.mu.Unlock()
 	if err != nil {
+		s.mu.Unlock()
 		return fmt.Errorf("%s: unable to listen to addr %s: %w", op, addr, err)
 	}
+	s.listenerReady = true
+	s.mu.Unlock()
 	if opts.withTLSConfig != nil {
 		s.logger.Debug("setting up TLS listener", "op", op)
 		s.tlsConfig = opts.withTLSConfig
